@@ -289,6 +289,8 @@ def get_attr(I, obj, name):
                         return BoundMethod(f, obj.obj)
         if name in ("__init__", "__init_subclass__", "__setattr__"):
             return BuiltinFn("object." + name, lambda *a, **k: None)
+        if name == "__new__":
+            return BuiltinFn("object.__new__", lambda c, *a, **k: PObj(c))
         I.raise_("AttributeError", name)
     if isinstance(obj, PExc):
         if name == "args":
